@@ -471,3 +471,143 @@ def check_pointobj(prop, tier):
         return res.finish(tier)
     finally:
         shutil.rmtree(work, ignore_errors=True)
+
+
+# --------------------------------------------------------------------------- X07: the KlattGrid containers' ordered tier map (addTier, ==)
+
+_KM_SCALES = ((0.5, 0.25), (0.0, 1.0), (0.1, 0.3))       # time = base + step * rank
+
+
+def _km_build(hist, variant, upto=None):
+    """Runs a history of addTier calls on a fresh real container; yields (container, child, idx, status) after each call."""
+    from praatio.data_classes import klattgrid as kg
+    base, step = _KM_SCALES[variant % len(_KM_SCALES)]
+    inter = (variant // len(_KM_SCALES)) % 2 == 1
+    cont = kg.KlattIntermediateTier("root") if inter else kg.KlattContainerTier("root")
+    leaf = kg.KlattSubPointTier if inter else kg.KlattPointTier
+    tm = lambda r: base + step * r
+    for op in (hist if upto is None else hist[:upto]):
+        c = op["child"]
+        if c["lo"] == -1:
+            child = kg.KlattIntermediateTier(c["name"])
+        else:
+            child = leaf(c["name"], [], tm(c["lo"]), tm(c["hi"]))
+        st = "ok"
+        try:
+            if op["idx"] == 99:
+                cont.addTier(child)
+            else:
+                cont.addTier(child, op["idx"])
+        except Exception as ex:  # noqa
+            st = type(ex).__name__
+        yield cont, st
+    return
+
+
+def _km_project(cont, variant):
+    base, step = _KM_SCALES[variant % len(_KM_SCALES)]
+
+    def rk(t):
+        if t is None:
+            return -1
+        r = (t - base) / step
+        return int(round(r)) if abs(r - round(r)) < 1e-9 else -7
+    return {"names": list(cont.tierNameList),
+            "kids": {k: {"lo": rk(v.minTimestamp), "hi": rk(v.maxTimestamp)} for k, v in cont.tierDict.items()},
+            "lo": rk(cont.minTimestamp), "hi": rk(cont.maxTimestamp)}
+
+
+def _km_job(job):
+    import copy
+    items, start, workdir = job
+    out = []
+    empty = {"names": [], "kids": {}, "lo": -1, "hi": -1}
+    prevs = {}                                       # per variant (class and time scaling): the container the previous history ended in
+    n = 0
+    for i, (hist, variant) in enumerate(items):
+        prev_final, prev_proj = prevs.get(variant, (None, empty))
+        pre = {"names": [], "kids": {}, "lo": -1, "hi": -1}
+        snap = None
+        k = 0
+        cont = None
+        twin = list(_km_build(hist, variant))          # the same history on fresh objects (for ==)
+        for cont, st in _km_build(hist, variant):
+            post = _km_project(cont, variant)
+            # the twin generator yields the same (single, growing) object: compare with the twin only at the end
+            ev = {"id": 0, "fam": "klattmap", "op": "addTier", "pre": pre, "child": hist[k]["child"], "idx": hist[k]["idx"], "status": st, "post": post,
+                  "eqsame": True, "eqprev": (snap == cont) if snap is not None else False, "other": prev_proj,
+                  "eqother": (prev_final == cont) if prev_final is not None else (prev_proj == post)}
+            if snap is None:
+                ev["eqprev"] = False if pre != post else True
+            if k == len(hist) - 1 and twin:
+                ev["eqsame"] = bool(twin[-1][0] == cont) and bool(cont == twin[-1][0])
+            out.append(ev)
+            n += 1
+            pre = post
+            snap = copy.deepcopy(cont)
+            k += 1
+        if cont is not None:
+            prevs[variant] = (cont, _km_project(cont, variant))
+    return out
+
+
+def check_klattmap(prop, tier):
+    import random
+    res = common.Result(prop)
+    work = common.scratch()
+    sz = {"quick": dict(Names='{"a", "b"}', TMax=1, Depth=3, Idx="MCIdxQuick", rand=4000),
+          "thorough": dict(Names='{"a", "b", "c"}', TMax=1, Depth=3, Idx="MCIdxThorough", rand=60000)}[tier]
+    try:
+        T.praatio()
+        fn = os.path.join(work, "MC_KlattMap.cfg")
+        with open(fn, "w") as f:
+            f.write("CONSTANTS\n  Names = %s\n  TMax = %d\n  Depth = %d\n  Emit = TRUE\n  IdxSet <- %s\nINIT Init\nNEXT Next\n" % (sz["Names"], sz["TMax"], sz["Depth"], sz["Idx"]))
+            for inv in ("WellFormedUntilRejected", "KeysSubsetOfNames", "RejectedAddLeavesACopy", "SpanInv", "EmitInv"):
+                f.write("INVARIANT %s\n" % inv)
+            f.write("PROPERTY OrderKept\nCHECK_DEADLOCK FALSE\n")
+        r = common.run_tlc("MC_KlattMap", fn, work, workers=1, timeout=7200)
+        res.add_tlc(r)
+        if common.tlc_failed(r):
+            sys.stderr.write(r["out"][-3000:])
+            raise common.MachineryError("KlattMap failed at design level")
+        hists = []
+        for line in r["out"].splitlines():
+            if line.startswith('"[') and line.endswith(']"'):
+                hists.append(json.loads(json.loads(line)))
+        if not hists:
+            raise common.MachineryError("KlattMap emitted no history")
+        res.exhaustive = True
+        nvar = 2 * len(_KM_SCALES)
+        items = [(h, i % nvar) for i, h in enumerate(hists)]
+        rng = random.Random(common.SEED * 59 + 7)
+        for _ in range(sz["rand"]):          # longer random histories over more names, beyond the model's bounds
+            h = []
+            for _k in range(rng.randint(1, 7)):
+                lo = rng.choice([-1, 0, 1, 2, 3])
+                hi = -1 if lo == -1 else rng.randint(lo, 4)
+                h.append({"child": {"name": rng.choice("abcde"), "lo": lo, "hi": hi}, "idx": rng.choice([99, 99, 0, 1, 2, 3, -1, -2, -9, 9])})
+            items.append((h, rng.randrange(nvar)))
+        import multiprocessing as mp
+        size = max(1, len(items) // (2 * common.NCPU) + 1)
+        chunks = [(items[i:i + size], i, work) for i in range(0, len(items), size)]
+        with mp.get_context("fork").Pool(common.NCPU) as pool:
+            events = [e for ch in pool.map(_km_job, chunks) for e in ch]
+        for i, e in enumerate(events):
+            e["id"] = i
+            res.distinct.add((len(e["pre"]["names"]), e["status"], e["idx"] == 99, e["child"]["lo"] == -1, e["eqother"]))
+        res.add_sample(events[0])
+        res.add_sample(events[-1])
+        verdicts, nval, cmd = common.validate_traces("Trace_KlattMap", events, work)
+        res.cmds.append(cmd)
+        res.traces += nval
+        res.evaluations += len(events)
+        res.judge(events, verdicts, common.load_findings(), lambda c: c.startswith(prop + "_"))
+        res.notes = dict(histories_from_TLC=len(hists), random_histories=sz["rand"], steps=len(events),
+                         rejected_steps=sum(1 for e in events if e["status"] != "ok"), equal_pairs=sum(1 for e in events if e["eqother"]))
+        res.assumptions = ["children are fresh leaf tiers without points or empty intermediate tiers (the map, not the child contents, is what is modelled)"]
+        res.rule = ("every addTier history of the KlattMap machine up to Depth (TLC: well-formedness until a rejected add, span = hull, order kept) replayed on real "
+                    "KlattContainerTier / KlattIntermediateTier objects under three time scalings, plus longer random histories; every real step must be the "
+                    "model's step from the real state before it, and == must be equality of (names, dictionary, child spans, span)")
+        return res.finish(tier)
+    finally:
+        shutil.rmtree(work, ignore_errors=True)
